@@ -51,6 +51,7 @@ def run(ctx):
         ctx.guard("C11", "bs-conversions", lambda: blocksize.log_conversions(ctx, prog))
         ctx.guard("C11", "bs-tables", lambda: data.block_size_tables(ctx, prog))
         ctx.guard("C11", "const values", lambda: data.const_census(ctx, prog, data.CONST_SCOPES["C11"], floor=1))
+        ctx.guard("C11", "panic conditions", lambda: beliefs.live_census(ctx, prog, beliefs.SCOPES["C11"][0]))
         ctx.guard("C11", "element-asserts", lambda: validate.element_range_asserts(ctx, prog))
         ctx.guard("C11", "normalize-step", lambda: normal.normalize_step(ctx, prog))
         ctx.guard("C11", "initialisers", lambda: typestate.initialisers_complete(ctx, prog))
